@@ -41,8 +41,8 @@ def m_identity(ctx, case):
                         ctx.violation("squawk-wrong-digits", code=format(code, "013b"), expected=exp, observed=r[1:], api="common.squawk")
                     # DF5 / DF21 carriers, ID field bits 20..32
                     for df, n in ((5, 56), (21, 112)):
-                        data = (df << (n - 29)) | rng.getrandbits(n - 29)
-                        f = bits.setfield(bits.with_pi(data, n, rng.getrandbits(24)), n, 20, 32, code)
+                        data = (df << (n - 29)) | rng.fill(n - 29)
+                        f = bits.setfield(bits.with_pi(data, n, rng.fill(24)), n, 20, 32, code)
                         hx = "%0*X" % (n // 4, f)
                         if rng.random() < 0.3:
                             hx = hx.lower()
@@ -57,8 +57,8 @@ def m_identity(ctx, case):
                         ctx.hit("id_df%d" % df)
                         ctx.nontrivial(("id", hx))
                     # TC28 emergency squawk: ME bits 12..24
-                    me = (28 << 51) | (rng.choice((0, 1, 1, 3)) << 48) | (rng.getrandbits(3) << 45) | (code << 32) | rng.getrandbits(32)
-                    hx = "%028X" % bits.es_frame(rng.choice((17, 18)), rng.randrange(8), rng.getrandbits(24), me)
+                    me = (28 << 51) | (rng.choice((0, 1, 1, 3)) << 48) | (rng.fill(3) << 45) | (code << 32) | rng.fill(32)
+                    hx = "%028X" % bits.es_frame(rng.choice((17, 18)), rng.randrange(8), rng.fill(24), me)
                     r = call(adsb.emergency_squawk, hx)
                     ctx.ev()
                     if r != ("ok", exp):
@@ -75,8 +75,8 @@ def m_surv(ctx, case):
     for iis in range(16):
         for ids in range(4):
             for df in (4, 5):
-                hdr = (fs_ << 24) | (dr_ << 19) | (iis << 15) | (ids << 13) | rng.getrandbits(13)
-                f = bits.with_pi((df << 27) | hdr, 56, rng.getrandbits(24))
+                hdr = (fs_ << 24) | (dr_ << 19) | (iis << 15) | (ids << 13) | rng.fill(13)
+                f = bits.with_pi((df << 27) | hdr, 56, rng.fill(24))
                 hx = "%014X" % f
                 if rng.random() < 0.3:
                     hx = hx.lower()
@@ -97,7 +97,7 @@ def m_allcall(ctx, case):
     code = case["code"]
     for ca in range(8):
         for rep in range(case["reps"]):
-            addr = rng.getrandbits(24)
+            addr = rng.fill(24)
             f = bits.with_pi((11 << 27) | (ca << 24) | addr, 56, code)
             hx = "%014X" % f
             if rep % 3 == 1:
@@ -129,10 +129,10 @@ def m_guards(ctx, case):
              ("adsb.emergency_squawk", adsb.emergency_squawk, ())]
     for n in (56, 112):
         for rep in range(case["reps"]):
-            body = rng.getrandbits(n - 29)
+            body = rng.fill(n - 29)
             if n == 112 and df in (17, 18) and rep % 2 == 0:
                 body = bits.setfield(body, n - 29, 28, 32, 28)  # TC28 inside DF17/18 (ME starts at frame bit 33 = body bit 28)
-            f = bits.with_pi((df << (n - 29)) | body, n, rng.getrandbits(24))
+            f = bits.with_pi((df << (n - 29)) | body, n, rng.fill(24))
             hx = "%0*X" % (n // 4, f)
             if rep % 5 == 4:
                 hx = hx.lower()
